@@ -193,6 +193,9 @@ def build_events(jobs, res, src_res, lookups):
         if main:
             ev["main"] = main
             names_in_parts(main, names)
+            # the one-line text of a conversion must show the factors the structured reply carries
+            if kind == "conversion" and ("factor" in main or "divfactor" in main) and (r.get("render") or {}).get("plain"):
+                ev["plain"] = r["render"]["plain"]
         if lst is not None:
             ev["list"] = lst
             for p in lst:
@@ -294,7 +297,7 @@ def decide_chunk(run, jobs, leg, shards, lookups, quant_path, stats):
     src_index = {s: k for k, s in enumerate(srcs)}
     for j in jobs:
         j["src"] = src_index.get(j.get("srcq"))
-    res = evalkit.run_eval([{"qs": j["qs"]} for j in jobs], ctx="bundled", shards=shards, tag="c06" + leg, timeout_ms=10000)
+    res = evalkit.run_eval([{"qs": j["qs"], "render": True} for j in jobs], ctx="bundled", shards=shards, tag="c06" + leg, timeout_ms=10000)
     src_res = evalkit.run_eval([{"qs": s} for s in srcs], ctx="bundled", shards=shards, tag="c06s" + leg, timeout_ms=10000)
     t1 = time.time()
     events, idx, skipped = build_events(jobs, res, src_res, lookups)
@@ -436,6 +439,14 @@ def run(tier, seed):
         jobs.append({"qs": "5 %s" % n})
     run.note("names_with_two_prefix_readings", amb[:40])
     decide(run, jobs, "conv", shards, lookups, quant_path, stats)
+    # targets that are pure numbers (no unit to hang the factor on) and targets with a constant, in the text as well
+    tj = []
+    for src in ["100", "7 percent", "1 dozen", "-3|8", "1e6", "100 m/m"]:
+        for tgt in ["5", "1|3", "2|7", "1000", "5 percent", "3 dozen", "-4", "0.25"]:
+            tj.append({"qs": "%s -> %s" % (src, tgt), "srcq": src})
+    for src, tgt in [("10 m", "3 ft"), ("10 m", "1|3 ft"), ("2 hour", "7 min"), ("1 kg", "3|4 lb")]:
+        tj.append({"qs": "%s -> %s" % (src, tgt), "srcq": src})
+    decide(run, tj, "const-targets", 2, lookups, quant_path, stats)
     run.sample({"leg": "conv", "q": jobs[0]["qs"]})
     run.sample({"leg": "conv", "q": jobs[len(jobs) // 2]["qs"]})
     run.note("judge_counts", stats)
